@@ -177,6 +177,9 @@ func (e *Engine) NewUnit(fn *ssa.Function, fs *FuncSpec) *Unit {
 		assumed: map[string]bool{}, autoInlined: map[string]bool{}, callOrd: map[string]int{}, pdoms: map[*ssa.Function]map[*ssa.BasicBlock]*ssa.BasicBlock{}, lastArgTypes: map[string][]types.Type{}, sliceArr: map[string]string{}, arrayOfCache: map[string]T{}, defOf: map[string]string{}, noMerge: os.Getenv("EBU_NOMERGE") != "" || e.noMerge}
 	if fs != nil {
 		u.props = fs.Props
+		if fs.Pathwise {
+			u.noMerge = true
+		}
 	}
 	return u
 }
@@ -488,6 +491,39 @@ func (u *Unit) checkExit(o Outcome, fs *FuncSpec, params map[string]SV) {
 		}
 	} else {
 		u.addCover(st, "exit", "exit", "a normal return of the function is reachable")
+		// `at exit ...` clauses (ghost updates a constructor needs before its result is checked)
+		for _, c := range fs.Asserts {
+			if c.Mark != "exit" {
+				continue
+			}
+			if u.atHit == nil {
+				u.atHit = map[*Clause]bool{}
+			}
+			u.atHit[c] = true
+			// results by name for the clause
+			xenv := u.newEnv(st)
+			xenv.names = map[string]SV{}
+			for k, v := range params {
+				xenv.names[k] = v
+			}
+			rs := fn.Signature.Results()
+			for i := 0; i < rs.Len() && i < len(o.results); i++ {
+				sv := SV{V: o.results[i], Typ: rs.At(i).Type()}
+				if rs.Len() == 1 {
+					xenv.names["result"] = sv
+				}
+				xenv.names[fmt.Sprintf("result%d", i)] = sv
+			}
+			if c.GhostTarget != "" {
+				u.ghostNewEnv(st, c, xenv)
+				continue
+			}
+			g := u.evalBool(xenv, c.Expr)
+			u.addOblig(st, "at."+labelOr(c, "assert"), c.Text, c.Props, g, exitInstr, "at exit: "+c.Text)
+			if !c.NoAssume {
+				st.assume(g)
+			}
+		}
 		u.checkCreatedInvariants(st, "created", exitInstr, 0)
 		rs := fn.Signature.Results()
 		for i := 0; i < rs.Len() && i < len(o.results); i++ {
